@@ -182,9 +182,41 @@ sepi!(sep_u8_ilt_5, u8, 5, 7, true, true, true, false);
 sepi!(sep_i64_itc_5, i64, 5, 7, true, false, true, true);
 sepi!(sep_u64_lc_5, u64, 5, 7, false, true, false, true);
 
+// every uniform combination on integers at 4 bytes (cheap), and the remaining float combinations at 4 bytes
+sepi!(sep_i32_i_4, i32, 4, 6, true, false, false, false);
+sepi!(sep_i32_l_4, i32, 4, 6, false, true, false, false);
+sepi!(sep_i32_t_4, i32, 4, 6, false, false, true, false);
+sepi!(sep_i32_il_4, i32, 4, 6, true, true, false, false);
+sepi!(sep_i32_it_4, i32, 4, 6, true, false, true, false);
+sepi!(sep_i32_lt_4, i32, 4, 6, false, true, true, false);
+sepi!(sep_i32_ilt_4, i32, 4, 6, true, true, true, false);
+sepi!(sep_i32_ic_4, i32, 4, 6, true, false, false, true);
+sepi!(sep_i32_lc_4, i32, 4, 6, false, true, false, true);
+sepi!(sep_i32_tc_4, i32, 4, 6, false, false, true, true);
+sepi!(sep_i32_ilc_4, i32, 4, 6, true, true, false, true);
+sepi!(sep_i32_itc_4, i32, 4, 6, true, false, true, true);
+sepi!(sep_i32_ltc_4, i32, 4, 6, false, true, true, true);
+sepi!(sep_i32_iltc_4, i32, 4, 6, true, true, true, true);
+sepf!(sep_f64_il_4, f64, 4, 6, true, true, false, false);
+sepf!(sep_f64_it_4, f64, 4, 6, true, false, true, false);
+sepf!(sep_f64_lt_4, f64, 4, 6, false, true, true, false);
+sepf!(sep_f64_ic_4, f64, 4, 6, true, false, false, true);
+sepf!(sep_f64_lc_4, f64, 4, 6, false, true, false, true);
+sepf!(sep_f64_tc_4, f64, 4, 6, false, false, true, true);
+sepf!(sep_f64_ilc_4, f64, 4, 6, true, true, false, true);
+sepf!(sep_f64_itc_4, f64, 4, 6, true, false, true, true);
+sepf!(sep_f64_ltc_4, f64, 4, 6, false, true, true, true);
+
 /// C11 under a separator format: partial and complete parsers agree (prefix re-parse included).
+fn in_small_alphabet(c: u8) -> bool {
+    c == b'_' || c == b'1' || c == b'.' || c == b'e' || c == b'x'
+}
+
 macro_rules! sep_rel {
     ($name:ident, $f:ident, $n:expr, $u:literal, $i:expr, $l:expr, $t:expr, $c:expr) => {
+        sep_rel!($name, $f, $n, $u, $i, $l, $t, $c, in_alphabet);
+    };
+    ($name:ident, $f:ident, $n:expr, $u:literal, $i:expr, $l:expr, $t:expr, $c:expr, $alpha:ident) => {
         #[kani::proof]
         #[kani::unwind($u)]
         #[kani::stub(lexical_parse_float::parse::moderate_path, stub_moderate)]
@@ -198,7 +230,7 @@ macro_rules! sep_rel {
             kani::assume(len <= $n);
             let mut k = 0;
             while k < $n {
-                kani::assume(in_alphabet(buf[k]));
+                kani::assume($alpha(buf[k]));
                 k += 1;
             }
             let s = &buf[..len];
@@ -228,6 +260,82 @@ macro_rules! sep_rel {
 }
 sep_rel!(seprel_f64_t_3, f64, 3, 5, false, false, true, false);
 sep_rel!(seprel_f64_t_4, f64, 4, 6, false, false, true, false);
+sep_rel!(seprel_f64_t_4s, f64, 4, 6, false, false, true, false, in_small_alphabet);
+sep_rel!(seprel_f64_iltc_4s, f64, 4, 6, true, true, true, true, in_small_alphabet);
 sep_rel!(seprel_f64_iltc_4, f64, 4, 6, true, true, true, true);
 sep_rel!(seprel_f64_l_4, f64, 4, 6, false, true, false, false);
 sep_rel!(seprel_f64_i_4, f64, 4, 6, true, false, false, false);
+
+/// Long-digit family: a short symbolic head over {0, 9, _} followed by a concrete run of
+/// twenty 9s (more than the 19 digits a u64 mantissa holds), with the decimal point before or
+/// after the head. Exercises the truncated-mantissa bookkeeping (leading-zero skip, digit
+/// counts) under a skip iterator; clauses (a) and (c) only.
+macro_rules! seplong {
+    ($name:ident, $f:ident, $u:literal, $pre:expr, $nsym:expr, $mid:expr, $i:expr, $l:expr, $t:expr, $c:expr) => {
+        #[kani::proof]
+        #[kani::unwind($u)]
+        #[kani::stub(lexical_parse_float::parse::moderate_path, stub_moderate)]
+        #[kani::stub(lexical_parse_float::parse::slow_path, stub_slow)]
+        #[kani::stub(lexical_parse_float::number::Number::try_fast_path, stub_fast)]
+        fn $name() {
+            const FMT: u128 = fmt($i, $l, $t, $c);
+            const OPTS: ParseFloatOptions = ParseFloatOptions::new();
+            const PRE: &[u8] = $pre;
+            const MID: &[u8] = $mid;
+            const N: usize = PRE.len() + $nsym + MID.len() + 20;
+            let fl = SepFlags { internal: $i, leading: $l, trailing: $t, consecutive: $c };
+            let mut buf = [b'9'; N];
+            let mut k = 0;
+            while k < PRE.len() {
+                buf[k] = PRE[k];
+                k += 1;
+            }
+            let head: [u8; $nsym] = kani::any();
+            k = 0;
+            while k < $nsym {
+                kani::assume(head[k] == b'0' || head[k] == b'_' || head[k] == b'9');
+                buf[PRE.len() + k] = head[k];
+                k += 1;
+            }
+            k = 0;
+            while k < MID.len() {
+                buf[PRE.len() + $nsym + k] = MID[k];
+                k += 1;
+            }
+            let s = &buf[..];
+            let mut clean = [0u8; N];
+            let mut m = 0usize;
+            let mut nsep = 0usize;
+            k = 0;
+            while k < N {
+                if s[k] == b'_' {
+                    nsep += 1;
+                } else {
+                    clean[m] = s[k];
+                    m += 1;
+                }
+                k += 1;
+            }
+            let got = lc::parse_with_options::<$f, FMT>(s, &OPTS);
+            let base = lc::parse_with_options::<$f, STANDARD>(&clean[..m], &OPTS);
+            let (pos_ok, digits_ok) = sep_positions_ok(s, b'_', fl, fl, fl);
+            match got {
+                Ok(v) => match base {
+                    Ok(w) => assert!(v.to_bits() == w.to_bits(), "separators changed the value"),
+                    Err(_) => assert!(false, "accepted with separators, rejected without"),
+                },
+                Err(_) => {
+                    if base.is_ok() && pos_ok && digits_ok {
+                        assert!(false, "separators at enabled positions made an accepted input rejected");
+                    }
+                },
+            }
+            kani::cover!(got.is_ok() && nsep > 0, "accepted input containing a separator");
+            kani::cover!(got.is_ok() && nsep == 0, "accepted separator-free input");
+        }
+    };
+}
+seplong!(seplong_f64_int_iltc, f64, 28, b"", 3, b".", true, true, true, true);
+seplong!(seplong_f64_frac_iltc, f64, 28, b"0.", 3, b"", true, true, true, true);
+seplong!(seplong_f64_int_i, f64, 28, b"0", 3, b"0.", true, false, false, false);
+seplong!(seplong_f64_frac_i, f64, 28, b"0.0", 3, b"0", true, false, false, false);
